@@ -411,7 +411,7 @@ fn rcmp_f64(a: &Version, b: &Version) -> Ordering {
 // ------------------------------------------------------------------- C16 ---
 
 pub fn c16_universe() -> Vec<Version> {
-    let tags = ["", "0", "1", "a", "a.0", "a.1", "b", "0.a", "1.0", "a.0.1", "a.0.b", "-1", "-a"];
+    let tags = ["", "0", "1", "a", "a.0", "a.1", "b", "0.a", "1.0", "a.0.1", "a.0.b", "-1", "-a", "A", "A.0"];
     let mut out = vec![];
     for ma in 0..3u64 {
         for mi in 0..3u64 {
